@@ -274,7 +274,13 @@ def check_b(ck, repo):
                     okr = True
                 elif v is not None:
                     ck.extra.setdefault("rank_forms_seen", []).append(_t(v))
-    ck.verdict(okr, "C19.b", fit, "rank = enumerate(sorted(set(column without missing values)))", "ranks are positions among the sorted training categories", "ranks are not enumerate(sorted(distinct non-missing values))")
+    seen_forms = ck.extra.get("rank_forms_seen", [])
+    if not okr and (not seen_forms or all(re.fullmatch(r"[A-Za-z_]\w*", t_) for t_ in seen_forms)):
+        # no store self._categories[c] = <expression> was read: the table is filled through an alias or
+        # built up by a loop into a local, another construction than the one this rule evaluates
+        ck.unknown("C19.b", fit, "rank = enumerate(sorted(set(column without missing values)))", f"the ranks are not stored as one expression under self._categories[column] (seen: {seen_forms or 'no such store'}): how they are numbered is not decided")
+    else:
+        ck.verdict(okr, "C19.b", fit, "rank = enumerate(sorted(set(column without missing values)))", "ranks are positions among the sorted training categories", "ranks are not enumerate(sorted(distinct non-missing values))")
     fp = [p for p in split_ifexp(paths(fit)) if p.ret != RAISE]
     oks = bool(fp)
     for p in fp:
